@@ -5,6 +5,13 @@
                    first [k] steps (the construction of the initial grid) are not printed;
       field i>0    one edit: [ar,N] [dr,N] [cr] [rr,A,B] [ab,N,R] [db,N] [dm,N,...] [ac,A,B]
                    [dc,A,B] [rn,K1,V1,K2,V2,...] [ro,N,...;A1,B1,A2,B2,...]  (names hex-encoded).
+                   [mi,BR,LEVELS,N,...;N,...]  minc: B = matrix block naming (d default, z, k), R = rock naming (d default,
+                   i identity, m per level), the selection (empty: all blocks), the names failing the volume test;
+    Two-grid cases, modes [D<k>] (full dumps) / [E<k>] (Adler-32): a second grid lives on the same objects;
+                   [x:<edit>] applies an edit to it; [ad,0] main = main + other, [ad,1] main = other + main;
+                   [em,o,NA,NB,F] main = main.embed(other, t2connection([main.block[NA], other.block[NB]])),
+                   [em,f,NA,NB,F] the same with two NEW block objects that only carry those names; F = 1 iff the sub-grid fits.
+                   Both grids are printed after every step, joined by [#].
     Result: the observations after each printed step joined by [|]; a step that raises
     prints [E:<exception>] and ends the case. *)
 From Coq Require Import Ascii String List Bool PArith NArith FMapPositive.
@@ -70,12 +77,39 @@ Definition comma_c : ascii := ",".
 Definition semi_c : ascii := ";".
 Definition names_of (l : list str) : list str :=
   match l with [[]] => [] | _ => map unhex l end.
+(** naming functions of minc: the defaults of t2grids.py and the variants the harness passes *)
+Definition mb_default (n : str) (m : nat) : str := let l := show_nat m in l ++ skipn (length l) n.
+Definition mb_z (n : str) (m : nat) : str := firstn 5 (show_nat m ++ s2l "zz" ++ skipn 3 n).       (* ('%dzz%s' % (level, name[3:]))[:5] *)
+Definition mb_k (n : str) (m : nat) : str := show_nat (m + 4) ++ skipn 1 n.                        (* str(level + 4) + name[1:] *)
+Definition mr_default (n : str) (m : nat) : str := match m with O => n | _ => s2l "X" ++ skipn 1 n end.
+Definition mr_id (n : str) (m : nat) : str := n.
+Definition mr_level (n : str) (m : nat) : str := s2l "M" ++ show_nat m ++ skipn 2 n.                (* 'M%d' % level + name[2:] *)
+Definition parse_naming (c : str) : option ((str -> nat -> str) * (str -> nat -> str)) :=
+  match c with
+  | [b; r] =>
+      match (if ceqb b "d" then Some mb_default else if ceqb b "z" then Some mb_z else if ceqb b "k" then Some mb_k else None),
+            (if ceqb r "d" then Some mr_default else if ceqb r "i" then Some mr_id else if ceqb r "m" then Some mr_level else None) with
+      | Some fb, Some fr => Some (fb, fr)
+      | _, _ => None
+      end
+  | _ => None
+  end.
+
 Definition parse_op (f : str) : option op :=
   match split_c semi_c f with
   | [p0; p1] =>
       match split_c comma_c p0 with
       | k :: bns => if str_eqb k (s2l "ro")
                     then Some (Reorder (names_of bns) (pairs (names_of (split_c comma_c p1))))
+                    else if str_eqb k (s2l "mi")
+                    then match bns with
+                         | nm :: lv :: sel =>
+                             match parse_naming nm with
+                             | Some (fb, fr) => Some (Minc fb fr (nat_of_str lv) (names_of sel) (names_of (split_c comma_c p1)))
+                             | None => None
+                             end
+                         | _ => None
+                         end
                     else None
       | [] => None
       end
@@ -104,16 +138,55 @@ Fixpoint parse_ops (fs : list str) : option (list op) :=
   | f :: r => match parse_op f, parse_ops r with Some o, Some l => Some (o :: l) | _, _ => None end
   end.
 
-Fixpoint exec (hash : bool) (g : grid) (ops : list op) (skip : nat) : list str :=
-  match ops with
+(** ** commands of the two-grid machine: the main grid [g] and a second grid [o] on the same objects *)
+Inductive cmd :=
+  | OnMain (e : op) | OnOther (e : op) | Sum (other_first : bool) | Emb (fresh : bool) (na nb : str) (fits : bool).
+Definition colon_c : ascii := ":".
+Definition parse_cmd (f : str) : option cmd :=
+  match f with
+  | c1 :: c2 :: rest =>
+      if ceqb c1 "x" && ceqb c2 ":" then option_map OnOther (parse_op rest)
+      else match split_c comma_c f with
+           | [k; a] => if str_eqb k (s2l "ad") then Some (Sum (str_eqb a (s2l "1"))) else option_map OnMain (parse_op f)
+           | [k; md; na; nb; ft] =>
+               if str_eqb k (s2l "em") then Some (Emb (str_eqb md (s2l "f")) (unhex na) (unhex nb) (str_eqb ft (s2l "1")))
+               else option_map OnMain (parse_op f)
+           | _ => option_map OnMain (parse_op f)
+           end
+  | _ => option_map OnMain (parse_op f)
+  end.
+Fixpoint parse_cmds (fs : list str) : option (list cmd) :=
+  match fs with
+  | [] => Some []
+  | f :: r => match parse_cmd f, parse_cmds r with Some o, Some l => Some (o :: l) | _, _ => None end
+  end.
+
+Definition exec_cmd (g : grid) (o : view) (c : cmd) : res (grid * view) :=
+  match c with
+  | OnMain e => do g' <- step g e; Ok (g', o)
+  | OnOther e => do g' <- step (with_view g o) e; Ok (with_view g' (view_of g), view_of g')
+  | Sum sw => do g' <- step g (AddGrid o sw); Ok (g', o)
+  | Emb false na nb fits =>
+      match bget g na, aget str_eqb (v_bdict o) nb with      (* main.block[NA], other.block[NB] *)
+      | Some i0, Some i1 => do g' <- step g (Embed o i0 i1 fits); Ok (g', o)
+      | _, _ => Raise KeyError
+      end
+  | Emb true na nb fits =>                                   (* t2block(NA, ...), t2block(NB, ...): objects of neither grid *)
+      let g1 := new_block (new_block g na 1%positive) nb 1%positive in
+      do g' <- step g1 (Embed o (next g) (Pos.succ (next g)) fits); Ok (g', o)
+  end.
+
+Fixpoint exec (dual hash : bool) (g : grid) (o : view) (cs : list cmd) (skip : nat) : list str :=
+  match cs with
   | [] => []
-  | o :: r =>
-      match step g o with
+  | c :: r =>
+      match exec_cmd g o c with
       | Raise e => [s2l "E:" ++ show_exn e]
-      | Ok g1 =>
+      | Ok (g1, o1) =>
           match skip with
-          | S k => exec hash g1 r k
-          | O => (if hash then show_adler (observe g1) else observe g1) :: exec hash g1 r O
+          | S k => exec dual hash g1 o1 r k
+          | O => let d := if dual then observe g1 ++ s2l "#" ++ observe (with_view g1 o1) else observe g1 in
+                 (if hash then show_adler d else d) :: exec dual hash g1 o1 r O
           end
       end
   end.
@@ -121,10 +194,13 @@ Fixpoint exec (hash : bool) (g : grid) (ops : list op) (skip : nat) : list str :
 Definition run_case (line : str) : str :=
   match fields line with
   | (m :: kdigits) :: fs =>
-      match parse_ops fs with
-      | Some ops =>
-          if ceqb m "F" then joinw (s2l "|") (exec false empty ops (nat_of_str kdigits))
-          else if ceqb m "H" then joinw (s2l "|") (exec true empty ops (nat_of_str kdigits))
+      match parse_cmds fs with
+      | Some cs =>
+          let k := nat_of_str kdigits in
+          if ceqb m "F" then joinw (s2l "|") (exec false false empty view0 cs k)
+          else if ceqb m "H" then joinw (s2l "|") (exec false true empty view0 cs k)
+          else if ceqb m "D" then joinw (s2l "|") (exec true false empty view0 cs k)
+          else if ceqb m "E" then joinw (s2l "|") (exec true true empty view0 cs k)
           else s2l "BADCASE"
       | None => s2l "BADCASE"
       end
